@@ -15,7 +15,7 @@ EXTENDS Integers, Sequences, FiniteSets, TLC
 CONSTANTS Actors, Parent, Roots, KidsOf, MaxRestarts,
           NMsg, SendTo, Toks, TokTarget, TokGraceful,
           Faults, IFaults, CrashKinds, Batch, Eager, MaxDup,
-          FixD1, FixD2, FixD4, FixD5, FixD12, FixD13, FixD14
+          FixD1, FixD2, FixD3, FixD4, FixD5, FixD12, FixD13, FixD14
 
 VARIABLES reg, inc, restarts, status, ring, mbuf, closed, children, ex, tok,
           faults, ifaults, nextMsg, spawned, spret, dead, overlap, dups,
@@ -348,8 +348,12 @@ ClDone(a) ==
   /\ LET e == ex[a] IN
      /\ events' = Append(events, Ev("Stopped", a, 0))
      /\ acted' = IF acted[a] = NoTok THEN [acted EXCEPT ![a] = e.cancel] ELSE acted
-     /\ tok' = IF e.cancel \in AllToks THEN [tok EXCEPT ![e.cancel] = "done"] ELSE tok
-     /\ done' = IF e.cancel \in Toks THEN [done EXCEPT ![e.cancel] = [at |-> Len(log), reg |-> reg[a], imm |-> FALSE]] ELSE done
+     \* FixD3: every Stop/Poison call that found the process registered has put its cancel function on the process
+     \* (onStopped); all of them are released now, not only the one whose pill was acted on
+     /\ LET waiting == IF FixD3 THEN {t \in AllToks : tok[t] = "sent" /\ TargetOf(t) = a}
+                       ELSE IF e.cancel \in AllToks THEN {e.cancel} ELSE {}
+        IN /\ tok' = [t \in AllToks |-> IF t \in waiting THEN "done" ELSE tok[t]]
+           /\ done' = [t \in Toks |-> IF t \in waiting THEN [at |-> Len(log), reg |-> reg[a], imm |-> FALSE] ELSE done[t]]
      /\ IF e.cancel = NilTok /\ ~FixD1
         THEN dead' = TRUE /\ ExStep(a, NoEx) /\ UNCHANGED spret
         ELSE /\ UNCHANGED dead
